@@ -215,6 +215,15 @@ pub fn finish(mut ctx: Ctx) -> i32 {
         }
     }
     let wall = ctx.start.elapsed().as_secs_f64();
+    if let Ok(path) = std::env::var("PVMC_DUMP_VIOLATIONS") {
+        // analysis aid: every new violation as one JSON line
+        let mut text = String::new();
+        for v in &fresh {
+            text.push_str(&json!({"kind": v.kind, "family": v.family, "index": v.index, "input": v.sig, "site": v.site, "detail": v.detail, "schedule": v.schedule}).to_string());
+            text.push('\n');
+        }
+        let _ = std::fs::write(path, text);
+    }
     // replay files for new violations (at most 20 written, all counted)
     let mut replay_paths = vec![];
     let _ = std::fs::create_dir_all(format!("{}/replays", verif_dir()));
